@@ -148,11 +148,12 @@ type SpecDB struct {
 	Valids    map[string][]*ValidSpec
 	Opaque    map[string]bool
 	NoEffect  []string
+	Delegates map[string]string
 }
 
 func NewSpecDB() *SpecDB {
 	return &SpecDB{Contracts: map[string]*Contract{}, IfaceCtr: map[string]*Contract{}, Funcs: map[string]*SpecFunc{},
-		Ghosts: map[string][]*GhostField{}, Valids: map[string][]*ValidSpec{}, Opaque: map[string]bool{}}
+		Ghosts: map[string][]*GhostField{}, Valids: map[string][]*ValidSpec{}, Opaque: map[string]bool{}, Delegates: map[string]string{}}
 }
 
 func (db *SpecDB) Add(sf *SpecFile) error {
@@ -185,6 +186,9 @@ func (db *SpecDB) Add(sf *SpecFile) error {
 		db.Opaque[qualifyType(o, sf)] = true
 	}
 	db.NoEffect = append(db.NoEffect, sf.NoEffect...)
+	for k, v := range sf.Delegates {
+		db.Delegates[k] = v
+	}
 	return nil
 }
 
